@@ -38,6 +38,10 @@ type symv struct {
 	bk types.BasicKind // kInt: Go integer kind; kF64: Float64
 	e  string          // SMT term (Bool / Int / FloatingPoint / Int mantissa for grid)
 	g  *grid           // non-nil => grid float
+	// bad != "": a float the grid domain cannot represent exactly (e.g. a
+	// quotient of two symbolic values).  It may be stored and copied, but any
+	// comparison, conversion or observation of it aborts the path as unsupported.
+	bad string
 }
 
 func isSym(v value) bool { _, ok := v.(symv); return ok }
@@ -223,6 +227,14 @@ func symBinop(op token.Token, t types.Type, x, y value) value {
 		return symShift(ex, op, x, y)
 	}
 	a, b := toSym(ex, x, peer), toSym(ex, y, peer)
+	if a.bad != "" || b.bad != "" {
+		why := a.bad + b.bad
+		switch op {
+		case token.ADD, token.SUB, token.MUL, token.QUO:
+			return symv{ex: ex, k: kF64, bk: types.Float64, e: "0", g: &grid{coef: big.NewInt(1)}, bad: why}
+		}
+		unsupported("comparison of an inexact grid float (%s)", why)
+	}
 	if a.k != b.k {
 		unsupported("symBinop: kind mismatch %v %v", a.k, b.k)
 	}
@@ -354,6 +366,9 @@ func symShift(ex *Explorer, op token.Token, x, y value) value {
 
 func symUnop(op token.Token, x symv) value {
 	ex := x.ex
+	if x.bad != "" {
+		return x
+	}
 	switch {
 	case op == token.NOT && x.k == kBool:
 		if strings.HasPrefix(x.e, "(not ") {
@@ -374,6 +389,9 @@ func symUnop(op token.Token, x symv) value {
 
 func symConv(tdst types.Type, x symv) value {
 	ex := x.ex
+	if x.bad != "" {
+		unsupported("conversion of an inexact grid float (%s)", x.bad)
+	}
 	b, ok := tdst.Underlying().(*types.Basic)
 	if !ok {
 		unsupported("symConv: non-basic destination %v", tdst)
@@ -486,14 +504,14 @@ func gridBinop(ex *Explorer, op token.Token, a, b symv) value {
 		// exact only when the divisor is a concrete constant whose odd part
 		// divides the concrete coefficient (e.g. (m*2.5e8)/1e9).
 		if b.e != "1" {
-			unsupported("grid: division by a symbolic value")
+			return symv{ex: ex, k: kF64, bk: types.Float64, e: "0", g: &grid{coef: big.NewInt(1)}, bad: "quotient by a symbolic value"}
 		}
 		if b.g.coef.Sign() == 0 {
 			unsupported("grid: division by zero")
 		}
 		q, r := new(big.Int).QuoRem(a.g.coef, b.g.coef, new(big.Int))
 		if r.Sign() != 0 {
-			unsupported("grid: inexact division by constant %v", b.g.coef)
+			return symv{ex: ex, k: kF64, bk: types.Float64, e: "0", g: &grid{coef: big.NewInt(1)}, bad: "inexact quotient by a constant"}
 		}
 		return symv{ex: ex, k: kF64, bk: types.Float64, e: a.e, g: &grid{coef: q, scale: a.g.scale - b.g.scale}}
 	}
